@@ -153,6 +153,8 @@ def install_loop_rule(it):
             if isinstance(iterable, SymSeq):
                 raise Unsupported(f'loop {key} over symbolic sequence without invariant')
             return None
+        if callable(getattr(spec, 'applies', None)) and not spec.applies(it, env, iterable):
+            return None
 
         def run():
             import ast as _ast
@@ -164,18 +166,25 @@ def install_loop_rule(it):
                 ctx.check(f'loop{key[1]}/entry/{nm}', g)
             # 2. fork: arbitrary iteration vs. exit
             which = ctx.fresh(z3.BoolSort(), 'loopcut')
+            closed = hasattr(spec, 'install')      # closed-form state per iteration instead of havoc+assume
             if ctx.choose(which):
-                spec.havoc(it, env)
                 k = ctx.fresh(z3.IntSort(), 'k')
                 ctx.assume(k >= 0)
-                for nm, g in spec.inv(it, env, k):
-                    ctx.assume(g)
+                if closed:
+                    if is_for:
+                        ctx.assume(k < iterable.n)
+                    spec.install(it, env, k)
+                else:
+                    spec.havoc(it, env)
+                    for nm, g in spec.inv(it, env, k):
+                        ctx.assume(g)
                 if is_for:
                     seq = iterable
-                    if not isinstance(seq, SymSeq) or seq.prefix:
-                        raise Unsupported('cut for-loop must iterate a prefix-free SymSeq')
+                    if getattr(seq, 'prefix', None):
+                        raise Unsupported('cut for-loop must iterate a prefix-free symbolic sequence')
                     ctx.assume(k < seq.n)
-                    it.assign(st.target, seq.elem(k), env, module)
+                    e = seq.elem(k)
+                    it.assign(st.target, e if not z3.is_expr(e) else Sym(e), env, module)
                 else:
                     c = it.truth(it.eval(st.test, env, module))
                     ctx.assume(it.as_bool_term(c) if not isinstance(c, bool) else c)
@@ -194,12 +203,15 @@ def install_loop_rule(it):
                     ctx.check(f'loop{key[1]}/preserved/{nm}', g)
                 raise PathEnd()
             else:
-                spec.havoc(it, env)
-                if is_for:
+                if closed and is_for:
+                    spec.install(it, env, iterable.n)
+                elif is_for:
+                    spec.havoc(it, env)
                     n = iterable.n
                     for nm, g in spec.inv(it, env, n):
                         ctx.assume(g)
                 else:
+                    spec.havoc(it, env)
                     k = ctx.fresh(z3.IntSort(), 'kexit')
                     ctx.assume(k >= 0)
                     for nm, g in spec.inv(it, env, k):
